@@ -94,6 +94,13 @@ def cases(draw: Any, tier: str) -> dict:
     for t, v in tasks.items():
         if v["state"] == "running" and v["outcome"] in ("event", "forever"):
             ops.append({"op": "set" if v["outcome"] == "event" else "cancel", "tid": t})
+    if d.pct(5):
+        # many tasks still running when the factory's context is left, some of them for a long time
+        for _ in range(d.pick([11, 12, 16, 25])):
+            ops.append({"op": "spawn", "tid": ntid, "via": "soon", "from": "F", "outcome": "ret", "d": d.pick([2, 3, 40, 100]), "status": False,
+                        "name": None, "cleanup": 0, "shape": "function"})
+            tasks[ntid] = {"state": "running", "outcome": "ret"}
+            ntid += 1
     ops.append({"op": "observe"})
     case: dict[str, Any] = {"backend": draw(BACKEND), "sched_seed": draw(SEED), "kind": d.pick(["root", "nested"]), "handler": handler,
                             "pre_res": d.int(0, 2), "via": d.pick(["module", "method"]), "ops": ops, "fatal": None,
